@@ -172,6 +172,29 @@ func (ft *FakeTarget) serveRequest(rw http.ResponseWriter, r *http.Request) {
 		return
 	}
 
+	if kind == "slow" && r.Header.Get("X-Verif-Chunked") == "1" {
+		// the response is under way (status, headers and half of the body delivered) while the request is held
+		body := expectedBody(ft.name, rid)
+		rw.Header().Set("X-Verif-Origin", ft.name)
+		rw.Header().Set("X-Verif-Path", r.URL.EscapedPath())
+		rw.Header().Set("Content-Type", "text/plain")
+		rw.WriteHeader(200)
+		fmt.Fprint(rw, body[:len(body)/2])
+		if f, ok := rw.(http.Flusher); ok {
+			f.Flush()
+		}
+		select {
+		case <-time.After(ms(hold)):
+		case <-r.Context().Done():
+			ft.w.rec.Emit("tg_end", KV{"tg": ft.name, "r": rid, "how": "cancelled"})
+			return
+		case <-ft.w.stop:
+			return
+		}
+		ft.w.rec.Emit("tg_end", KV{"tg": ft.name, "r": rid, "how": "replied"})
+		fmt.Fprint(rw, body[len(body)/2:])
+		return
+	}
 	switch kind {
 	case "slow":
 		select {
